@@ -402,7 +402,15 @@ func (w *_listpairsIteratorRepr) Next() (index int64, value datamodel.Node, _ er
 		if err != nil {
 			return 0, nil, err
 		}
-		return int64(idx), field, nil
+		// The index is the position in the list, which skips absent fields.
+		pos := 0
+		for i := 0; i < idx; i++ {
+			if w.fields[i].IsOptional() && w.val.Field(i).IsNil() {
+				continue
+			}
+			pos++
+		}
+		return int64(pos), field, nil
 	}
 }
 
